@@ -9,7 +9,7 @@ PID = 'C02'
 RULE = ('as C01 plus ECI; every produced stream is decoded by the independent reference decoder tools/props/refdec.py; the padding '
         'sweep encodes the empty input and 1..3-codeword inputs for all 48 sizes so that every pad position 2..1558 occurs; '
         'non-trivial = encoding succeeded')
-THEOREMS = 'C02_symbol_and_length, C02_error_codewords, C02_codeword_vector, C02_padding, C02_padding_form, C02_randomised_pad, C02_header, C02_ascii_plan_conformant, C02_ascii_only_conformant'
+THEOREMS = 'C02_symbol_and_length, C02_error_codewords, C02_codeword_vector, C02_padding, C02_padding_form, C02_randomised_pad, C02_header, C02_ascii_plan_conformant, C02_ascii_only_conformant, C02_base256_only_conformant'
 ASSUMPTIONS = ['refdec.py is an independent reading of ISO/IEC 16022 5.2',
                'the sort order of remove_hopeless_cases is taken from the implementation (hook trace)']
 
